@@ -82,6 +82,9 @@ EditsClusterEnum == {[kind |-> "edit", res |-> "r1", field |-> "f1", value |-> "
                      [kind |-> "oobkeep", res |-> "r2", field |-> "", value |-> ""],
                      [kind |-> "oobnew", res |-> "r2", field |-> "", value |-> "none"],
                      [kind |-> "oobnew", res |-> "r3", field |-> "", value |-> "none"]}
+\* fault family: every history of up to two operations is a base of the fault sweep
+MenuFaultEnum == Installs({"cA"}, B, B, F, F, F) \cup Upgrades({"cB"}, B, B, {0}, F, F, F) \cup Rollbacks({0}, {0}, F, B, F)
+                 \cup UpInstalls({"cA"}, B, F, F, F, F) \cup Uninstalls(B, F, F)
 MenuLedgerEnum == Installs({"cA"}, B, F, F, F, F) \cup Upgrades({"cB"}, F, F, {0, 2}, F, F, F) \cup Rollbacks({0, 1}, {0}, F, F, F)
                   \cup Uninstalls(B, F, F) \cup UpInstalls({"cB"}, F, F, F, F, F)
 MenuHooksEnum == {U("test", "none")} \cup Installs({"cH", "cJ"}, F, F, B, F, F) \cup Upgrades({"cI", "cJ"}, F, F, {0}, F, F, F) \cup Rollbacks({0}, {0}, F, F, F)
